@@ -73,11 +73,21 @@ def alphabet(tier):
             ops.append(("use_schema", d, s))
     ops.append(("use_schema", "NOPE", "S1"))
     ops.append(("use_schema", "DB1", "NOPE"))
+    # "set at connect": the connection in this slot is replaced by a NEW connection of the same instance, made with
+    # these arguments in whatever state the history has reached (default flags: missing database / schema are created)
+    ops.append(("reconnect", "DB1", "S1"))
+    ops.append(("reconnect", "DB2", "S2"))
+    if tier != "quick":
+        ops.append(("reconnect", "DB2", "S1"))
+        ops.append(("reconnect", "DB1", None))
+        ops.append(("reconnect", None, None))
     return ops
 
 
 def op_sql(op, tag):
     k = op[0]
+    if k == "reconnect":
+        return f"connect(database={op[1] and op[1].lower()!r}, schema={op[2] and op[2].lower()!r})"
     if k == "show_schemas":
         return "show terse schemas"
     if k == "show_tables_in_database":
@@ -163,6 +173,14 @@ class Model:
         ('ok', rows|None) | ('err', errno|None) | ('ok_free_schema',)  (USE DATABASE: schema not demanded)"""
         k = op[0]
         cd, cs = self.ctx[c]
+        if k == "reconnect":
+            d, sc = op[1], op[2]
+            if d:
+                self.cat.setdefault(d, {})
+                if sc:
+                    self.cat[d].setdefault(sc, {})
+            self.ctx[c] = [d, sc]
+            return ("ok", None)
         if k == "create_db":
             if op[1] in self.cat:
                 return ("err", None)
@@ -326,7 +344,10 @@ def build(init, hist):
         tag += 1
         exp = m.step(c, op, tag)
         try:
-            conns[c]._verif_cur.execute(op_sql(op, tag))  # noqa: SLF001
+            if op[0] == "reconnect":
+                do_reconnect(fs, conns, c, op)
+            else:
+                conns[c]._verif_cur.execute(op_sql(op, tag))  # noqa: SLF001
         except Exception:  # noqa: BLE001
             pass
         if exp[0] == "ok_free_schema":
@@ -334,11 +355,20 @@ def build(init, hist):
     return fs, conns, m, tag
 
 
+def do_reconnect(fs, conns, c, op):
+    conns[c] = fs.connect(database=op[1] and op[1].lower(), schema=op[2] and op[2].lower())
+    conns[c]._verif_cur = conns[c].cursor()  # noqa: SLF001
+
+
 def ctx_kind(ctx):
     return ("db" if ctx[0] else "nodb") + ("+schema" if ctx[1] else "")
 
 
 GROUP = 6
+
+
+class _Done(Exception):
+    pass
 
 
 def transitions_of(init, hist, tier):
@@ -382,6 +412,9 @@ def one_transition(init, hist, c, op, live, acc, tier):
     exp = m.step(c, op, tag)
     sql = op_sql(op, tag)
     try:
+        if op[0] == "reconnect":
+            do_reconnect(fs, conns, c, op)
+            raise _Done
         cur = conns[c]._verif_cur  # noqa: SLF001
         cur.execute(sql)
         rows = cur.fetchall() if op[0] in ("select", "describe", "show_schemas", "show_tables_in_database", "show_tables_in_schema") else None
@@ -392,6 +425,8 @@ def one_transition(init, hist, c, op, live, acc, tier):
         elif op[0].startswith("show_tables"):
             rows = sorted(f"{r[4]}.{r[1]}" for r in rows if not str(r[1]).lower().startswith("_fs_"))
         got = ("ok", rows)
+    except _Done:
+        got = ("ok", None)
     except Exception as e:  # noqa: BLE001
         got = exc_info(e)
     if exp[0] == "ok_free_schema" and got[0] == "ok":
@@ -415,6 +450,13 @@ def judge(init, hist, c, op, acc, m, m_pre, exp, got, sql, pre_model_key, pre_ct
         + (f",level={op[1]}" if len(op) > 1 and isinstance(op[1], int) else (",qualified" if len(op) > 2 and op[1] else ""))
         + f",ctx={ctx_kind(pre_ctx[c])}"
     )
+    if op[0] == "reconnect":
+        pre_cat_m = m_pre.cat
+        base = (
+            f"op=reconnect,database={'none' if not op[1] else ('exists' if op[1] in pre_cat_m else 'missing')}"
+            f",schema={'none' if not op[2] else ('exists' if op[1] in pre_cat_m and op[2] in pre_cat_m[op[1]] else 'missing')}"
+            f",same_args_connected_before={'yes' if any(o[0] == 'reconnect' and o[1:] == op[1:] for _c, o in hist) or (op[1], op[2]) in [tuple(x and x.upper() for x in a) for a in INITS[init][:2]] else 'no'}"
+        )
     diverged = False
     changed = m.key() != pre_model_key
     if changed or exp[0] == "err":
